@@ -93,6 +93,58 @@ def run(rep, rng, tier, replay=None):
                         lst[0][1], i, (lst[0][3]["metadata"], lst[0][3]["debug"]), (op["metadata"], op["debug"])),
                         case=dict(c, ops=[lst[0][3], op], threads=1), failing_input=True, what="return_metadata/print_debug_info/history changes the numerical result")
         rep.sample(dict(graph=c["family"], threads=c["threads"], ops=len(c["ops"]), first_op={k: v for k, v in c["ops"][0].items() if k != "edge_data"}))
+    # different samplers used at the same time from different threads (all cases at once, one thread per case plus the case's own
+    # threads): every result must be what the sequential run gave
+    def concurrent(payload):
+        # a few hundred OS threads: when the machine refuses them this is no statement about the code
+        try:
+            return harness("history", payload, timeout=900, mem_kb=64 * 1024 * 1024)["results"]
+        except CheckError as e:
+            if any(w in str(e) for w in ("memory allocation", "failed to spawn thread", "Resource temporarily unavailable", "os error 11")):
+                rep.cov.setdefault("concurrent_runs_skipped", []).append(str(e)[:200])
+                return [dict(skipped=True) for _ in payload["cases"]]
+            raise
+    res3 = concurrent(dict(cases=cases, parallel_cases=True))
+    ncross = 0
+    for ci, (c, o, o3) in enumerate(zip(cases, res1, res3)):
+        if "results" not in o or "results" not in o3:
+            if "results" in o and not o3.get("skipped"):
+                rep.violation("machinery", "history harness (parallel cases): %s" % str(o3)[:300], case=dict(c, ops=c["ops"][:2]))
+            continue
+        hit = None
+        for grp in ("results", "fresh", "restored_json", "restored_cbor", "restored_compact"):
+            for i, (a, a3) in enumerate(zip(o[grp], o3[grp])):
+                ncross += 1
+                if strip(a) != strip(a3) and hit is None:
+                    hit = (grp, i)
+        if hit:
+            others = [dict(edges=d["edges"], D=d["D"]) for d in cases[:ci][-2:] + cases[ci + 1:ci + 3]]
+            rep.violation("property", "op %d (%s) gives another result when other samplers are being sampled in other threads at the same time" % (hit[1], hit[0]),
+                          case=dict(c, ops=c["ops"][:hit[1] + 1], concurrently_with=others), failing_input=True,
+                          what="the result of a call depends on what other threads do with OTHER samplers (process-wide state)")
+    # the same, tightly: one thread per sampler, barrier-started, many passes over the first calls of each history
+    rounds = 150 if tier == "quick" else 600
+    sc = [dict(c, ops=c["ops"][:16], stress_ops=16, stress_rounds=rounds) for c in cases]
+    res4 = concurrent(dict(cases=sc, stress=True))
+    for c, o, o4 in zip(cases, res1, res4):
+        if "results" not in o:
+            continue
+        if o4.get("skipped"):
+            continue
+        if "distinct" not in o4:
+            rep.violation("machinery", "history harness (stress): %s" % str(o4)[:300], case=dict(c, ops=c["ops"][:2]))
+            continue
+        for i, (a, ds) in enumerate(zip(o["results"], o4["distinct"])):
+            ncross += rounds
+            wrong = [d for d in ds if strip(d) != strip(a)]
+            if wrong:
+                others = [dict(edges=d["edges"], D=d["D"]) for d in cases if d is not c][:3]
+                rep.violation("property", "op %d gives %d different results over %d repetitions while other samplers are sampled in other threads (sequential: %s, seen: %s)" % (
+                    i, len(ds), rounds, str(strip(a))[:80], str(strip(wrong[0]))[:80]),
+                    case=dict(c, ops=c["ops"][:i + 1], concurrently_with=others, stress_rounds=rounds), failing_input=True,
+                    what="the result of a call depends on what other threads do with OTHER samplers (process-wide state)")
+                break
+    rep.cov["cross_sampler_concurrent_calls"] = ncross
     # from_rng vs from_point on the recorded draws
     pcs, refs = [], []
     for c, o in zip(cases, res1):
@@ -128,5 +180,5 @@ def run(rep, rng, tier, replay=None):
     rep.cov["rule"] = ("%d samplers, each with a random history of 50-500 mixed calls (from_point at f64/Inst, from_rng with a replaying counting RNG; all settings combinations, the "
                        "stability test off / 1e-5 / tolerances 0 and 1e-16 at which it mostly rejects) run on ONE shared sampler from 1/2/4/8/16 barrier-started threads; every output compared bit for bit with the same call on a freshly built "
                        "sampler and with a second process; calls with equal point+stability must agree whatever the flags; from_rng must draw get_dimension() numbers and equal from_point "
-                       "on them; serialisation before == after. non-trivial = not the first call of a single-threaded history" % ncase)
+                       "on them; all cases once more AT THE SAME TIME (one thread per sampler) against the sequential results; serialisation before == after. non-trivial = not the first call of a single-threaded history" % ncase)
     rep.assumptions.append("real data races / OS scheduling are not exhibited by the model; the claim for them rests on &self + Sync typing (static assertion in the harness) and the static scan")
